@@ -30,7 +30,7 @@ Theorem C06_partial :
     let hdr := enc_header (roots_opt (cs_nil x) (cs_roots x)) 1 in
     hdrdec hdr = Some (cs_roots x, 1) ->
     (exists r, hdrdec pragma_body = Some (r, 2)) ->
-    blen hdr <= w_maxh o -> blen hdr <= default_maxh -> w_maxcid o <= max_digest_alloc ->
+    blen hdr <= w_maxh o -> w_maxcid o <= max_digest_alloc ->
     match cs_kind x with KStorage false => negb (w_v1 o) | _ => false end = false ->
     51 + w_dpad o + w_ipad o + ld_size (blen hdr)
       + blen (enc_sections (concat (map fst (cs_pre x)) ++ cs_puts x)) < two63 ->
@@ -77,7 +77,7 @@ Theorem C06_crash_safe_guarded :
       blen (fst b) + blen (snd b) <= w_maxs o /\ blen (fst b) + blen (snd b) < two63 in
     hdrdec hdr = Some (cs_roots x, 1) ->
     (exists r, hdrdec pragma_body = Some (r, 2)) ->
-    blen hdr <= w_maxh o -> blen hdr <= default_maxh -> w_maxcid o <= max_digest_alloc ->
+    blen hdr <= w_maxh o -> w_maxcid o <= max_digest_alloc ->
     match cs_kind x with KStorage false => negb (w_v1 o) | _ => false end = false ->
     51 + w_dpad o + w_ipad o + ld_size (blen hdr)
       + blen (enc_sections (concat (map fst (cs_pre x)) ++ cs_puts x)) < two63 ->
@@ -122,7 +122,7 @@ Theorem C06_header_complete :
     let hdr := enc_header (roots_opt (cs_nil x) (cs_roots x)) 1 in
     hdrdec hdr = Some (cs_roots x, 1) ->
     (exists r, hdrdec pragma_body = Some (r, 2)) ->
-    blen hdr <= w_maxh o -> blen hdr <= default_maxh -> w_maxcid o <= max_digest_alloc ->
+    blen hdr <= w_maxh o -> w_maxcid o <= max_digest_alloc ->
     match cs_kind x with KStorage false => negb (w_v1 o) | _ => false end = false ->
     51 + w_dpad o + w_ipad o + ld_size (blen hdr)
       + blen (enc_sections (concat (map fst (cs_pre x)) ++ cs_puts x)) < two63 ->
